@@ -34,6 +34,7 @@ type loopInfo struct {
 }
 
 type invItem struct {
+	lemma bool
 	text  string
 	label string
 	props []string
@@ -992,6 +993,17 @@ func (fr *Frame) enterLoop(li *loopInfo, preds []*ssa.BasicBlock, edges []string
 			}
 		}
 		for _, inv := range li.invs {
+			if inv.lemma {
+				// a loop lemma also holds for the entry values
+				if g, err := inv.eval(fr, sts[i], phiMap); err == nil {
+					vc.assert(sImp(edges[i], g))
+				}
+			}
+		}
+		for _, inv := range li.invs {
+			if inv.lemma {
+				continue
+			}
 			g, err := inv.eval(fr, sts[i], phiMap)
 			if err != nil {
 				fr.contractError(fmt.Sprintf("loop %d invariant %q: %v", li.ordinal, inv.text, err))
@@ -1180,6 +1192,9 @@ func (fr *Frame) checkLoopStep(li *loopInfo, latch *ssa.BasicBlock, st *State) {
 		}
 	}
 	for _, inv := range li.invs {
+		if inv.lemma {
+			continue
+		}
 		g, err := inv.eval(fr, st, phiMap)
 		if err != nil {
 			continue
@@ -1273,7 +1288,10 @@ func (fr *Frame) collectInvariants(li *loopInfo) {
 	if fr.con != nil {
 		for _, c := range fr.con.Loops[li.ordinal] {
 			c := c
-			li.invs = append(li.invs, invItem{text: c.Text, label: c.Label, props: c.Props, eval: func(fr *Frame, st *State, pm map[ssa.Value][]string) (string, error) {
+			if c.Lemma {
+				fr.vc.assumptions[fmt.Sprintf("lemma instance (trusted) in %s, loop %d: %s", fr.vc.funcName, li.ordinal, c.Text)] = true
+			}
+			li.invs = append(li.invs, invItem{lemma: c.Lemma, text: c.Text, label: c.Label, props: c.Props, eval: func(fr *Frame, st *State, pm map[ssa.Value][]string) (string, error) {
 				env := fr.newEnv(st)
 				env.phi = pm
 				env.loop = li
